@@ -14,6 +14,23 @@ def contains(sp, item, arg):
     try: return b(sp.contains(item, prereleases=arg))
     except InvalidVersion: return "EV"
 
+class SubVersion(Version):
+    """a subclass instance must be taken as it is by _coerce_version (isinstance check)"""
+
+def cand(text, kind):
+    """the candidate object handed to contains(): the text itself, Version(text) or an instance of a Version subclass (InvalidVersion escapes)"""
+    if kind == "obj": return Version(text)
+    if kind == "sub": return SubVersion(text)
+    return text
+
+def with_setting(s, sp, ov, how):
+    """the object's own pre-release setting: constructor keyword, or attribute assigned after construction (how == "a")"""
+    if ov not in ("T", "F"): return sp
+    if how == "a":
+        sp.prereleases = TRI[ov]
+        return sp
+    return Specifier(s, prereleases=TRI[ov])
+
 import version_impl
 
 def observe(cmd, args):
@@ -39,48 +56,90 @@ def observe(cmd, args):
         sp = mk(args[0])
         if sp is None: return "ES"
         return contains(sp, args[1], True)
+    if cmd == "sp.sem.obj":
+        # pre-releases enabled by the object's own setting, no call argument; through contains() or `in`; str / Version / subclass candidate
+        s, item, via, kind, how = args
+        sp = mk(s)
+        if sp is None: return "ES"
+        sp = with_setting(s, sp, "T", how)
+        try:
+            x = cand(item, kind)
+            return b(x in sp) if via == "in" else b(sp.contains(x))
+        except InvalidVersion: return "EV"
+    if cmd == "sp.query":
+        s, arg, item, ov, how, via, kind = args
+        sp = mk(s)
+        if sp is None: return "ES"
+        sp = with_setting(s, sp, ov, how)
+        try:
+            x = cand(item, kind)
+            return b(x in sp) if via == "in" else b(sp.contains(x, prereleases=TRI[arg]))
+        except InvalidVersion: return "EV"
+    if cmd == "law.sp.oracle":
+        # third leg: the expected answer was computed by the harness from the STRUCTURED versions (gen_spec.oracle), prereleases=True
+        s, item, want, kind = args
+        sp = mk(s)
+        if sp is None: return "specifier rejected"
+        try: got = b(sp.contains(cand(item, kind), prereleases=True))
+        except InvalidVersion: return "candidate rejected"
+        return "ok" if got == want else "contains() says %s, the structured reading of the statement says %s" % (got, want)
     if cmd == "law.sp.pair":
-        # laws of C04 on one specifier version text V (args[0], without operator) and two candidates c, c2
-        vtxt, c, c2 = args
+        # laws of C04 on one specifier version text V (args[0], without operator; may end in ".*") and two candidates c, c2;
+        # args[3]: the prereleases argument every contains() call gets (T/N/F, default T); args[4]: candidates passed as str / Version object / subclass
+        vtxt, c, c2 = args[:3]
+        setting = TRI[args[3]] if len(args) > 3 else True
+        kind = args[4] if len(args) > 4 else "str"
         def S(op):
             return mk(op + vtxt)
-        def has(sp, x):
-            return sp.contains(x, prereleases=True)
         try: vc, vc2 = Version(c), Version(c2)
         except InvalidVersion: return "ok"
+        objs = {c: cand(c, kind), c2: cand(c2, kind)}
+        def has(sp, x):
+            return sp.contains(objs.get(x, x), prereleases=setting)
+        def gate_open(vx):
+            # the answers are the operator's own (laws about the operators apply) when the candidate passes the pre-release gate whatever the operator
+            return setting is True or not vx.is_prerelease
         eq, ne, ge, le, lt, gt, co = (S(o) for o in ("==", "!=", ">=", "<=", "<", ">", "~="))
+        both = ((c, vc), (c2, vc2))
         if eq is not None and ne is not None:
-            for x in (c, c2):
-                if has(eq, x) == has(ne, x): return "!= is not the complement of == on %r" % x
-        if vtxt.endswith(".*"): return "ok"
-        try: V = Version(vtxt)
+            for x, vx in both:
+                if gate_open(vx) and has(eq, x) == has(ne, x): return "!= is not the complement of == on %r" % x
+        wild = vtxt.endswith(".*")
+        try: V = Version(vtxt[:-2] if wild else vtxt)
         except InvalidVersion: return "ok"
         specs = [("==", eq), ("!=", ne), (">=", ge), ("<=", le), ("<", lt), (">", gt), ("~=", co)]
         for name, sp in specs:
             if sp is None: continue
-            # equal candidates get the same answer
+            # equal candidates get the same answer (every setting)
             if vc == vc2 and has(sp, c) != has(sp, c2): return "%s%s: equal candidates %r %r answered differently" % (name, vtxt, c, c2)
-            # a specifier without local label: local label of the candidate is irrelevant
+            # a specifier without local label: local label of the candidate is irrelevant (every setting)
             if V.local is None:
-                for x, vx in ((c, vc), (c2, vc2)):
+                for x, vx in both:
                     if vx.local is not None and has(sp, x) != has(sp, vx.public): return "%s%s: local label of %r matters" % (name, vtxt, x)
+            # a closed gate refuses every pre-release
+            if setting is False:
+                for x, vx in both:
+                    if vx.is_prerelease and has(sp, x): return "%s%s: pre-release %r accepted with prereleases=False" % (name, vtxt, x)
+        if wild: return "ok"
         if ge is not None and le is not None:
-            for x, vx in ((c, vc), (c2, vc2)):
+            for x, vx in both:
+                if not gate_open(vx): continue
                 if not (has(ge, x) or has(le, x)): return ">= and <= do not cover %r" % x
                 if lt is not None and has(lt, x) and not has(le, x): return "< not inside <= on %r" % x
                 if gt is not None and has(gt, x) and not has(ge, x): return "> not inside >= on %r" % x
                 if Version(vx.public) == V:
                     if lt is not None and has(lt, x): return "<V matches V or a local version of V: %r" % x
                     if gt is not None and has(gt, x): return ">V matches V or a local version of V: %r" % x
-            lo, hi = (c, c2) if Version(vc.public) <= Version(vc2.public) else (c2, c)
-            if has(ge, lo) and not has(ge, hi): return ">=%s not upward closed: %r %r" % (vtxt, lo, hi)
-            if has(le, hi) and not has(le, lo): return "<=%s not downward closed: %r %r" % (vtxt, lo, hi)
+            if gate_open(vc) and gate_open(vc2):
+                lo, hi = (c, c2) if Version(vc.public) <= Version(vc2.public) else (c2, c)
+                if has(ge, lo) and not has(ge, hi): return ">=%s not upward closed: %r %r" % (vtxt, lo, hi)
+                if has(le, hi) and not has(le, lo): return "<=%s not downward closed: %r %r" % (vtxt, lo, hi)
         if co is not None and ge is not None:
             rel = list(V.release)[:-1]
             pfx = mk("==" + (("%d!" % V.epoch) if V.epoch else "") + ".".join(map(str, rel)) + ".*")
             if pfx is not None:
-                for x in (c, c2):
-                    if has(co, x) != (has(ge, x) and has(pfx, x)): return "~=%s is not >= and prefix match on %r" % (vtxt, x)
+                for x, vx in both:
+                    if gate_open(vx) and has(co, x) != (has(ge, x) and has(pfx, x)): return "~=%s is not >= and prefix match on %r" % (vtxt, x)
         return "ok"
     if cmd == "law.sp.embedded":
         # a clause is accepted inside a requirement exactly when Specifier accepts it (clause = stripped text starting with an operator)
